@@ -143,6 +143,9 @@ func init() {
 				}
 			}
 			text, _ := dsl.PrintRules(c.Rules, c.Lay)
+			if tooCostly(x, text) {
+				return
+			}
 			rb, err := buildDSL(text, c.World.inject())
 			if err != nil {
 				x.Violation("compile", "generated text was rejected: %v\n%s", err, text)
